@@ -10,7 +10,8 @@ META = {
                    '(dr_collapse_subgraph, dr_prune_nodes*, dr_free_dag); (2) in dr_summarize_section_or_task the accumulation call '
                    'dominates every contraction call and nothing accumulates after a contraction; (3) in dr_accumulate_stats the set '
                    'of summary fields accumulated from a chain element equals the set accumulated from a created child task, t_1 and '
-                   'the counts by addition, and t_inf is the one field combined with max over children.',
+                   'the counts by addition, and t_inf is the one field combined with max over children.'
+                   ' (4) writer/reader agreement on edges by kind: every edge kind dr_pi_dag_enum_edges emits for an uncontracted subgraph is counted by dr_accumulate_stats for a contracted one, by exactly one, at the nesting level at which the enumerator descends, with the summary node carrying the in-edge kind of its first element, and dr_calc_edges sums over contracted nodes and explicit edges; (5) section typestate: sections are opened only by begin_section and the create/wait entry points and summarised only when a wait returns or the task ends, and each dr_return_from_X marks the successor with the kind the accumulator counts for X.',
     'not_decided': 'every numerical claim: that the totals equal the sums over the uncontracted interval sequence, that t_inf <= t_1, '
                    'that contraction options do not change the report (values of run-time data; no sound static argument in reach)',
     'assumptions': ['instrumentation entry points are called in a well-nested way'],
